@@ -2,6 +2,7 @@ CONSTANTS Menu = "C05"
  MaxTail = 2
  Layouts = {"siblings", "nested", "root"}
  AllPlants = FALSE
+ Lite = FALSE
  Flavours <- Flav_all4
 INIT HInit
 NEXT HNext
